@@ -39,6 +39,8 @@ ANCHORS = ["ValueWrapper.get_sql", "Array.get_sql", "Parameterizer.should_parame
            "Parameter.get_sql", "QueryBuilder.get_parameterized_sql", "_SetOperation.get_sql", "MSSQLQueryBuilder._offset_sql",
            "MSSQLQueryBuilder._limit_sql", "QueryBuilder.limit", "QueryBuilder.do_update"]
 WORKERS = {"quick": 16, "thorough": 16}
+# cases the check sets aside instead of judging, as a share of all cases (more than that makes a run inconclusive)
+CEILING_RATIOS = {"inline_render_raises": 0.015}
 WATCHDOG = {"quick": 900, "thorough": 3300}
 
 PLAIN = (str, int, float, bool, type(None), decimal.Decimal, dt.date, dt.time, dt.datetime, uuid.UUID, bytes)
